@@ -248,8 +248,9 @@ def _check(pid, tier, seed, jobs, rundir, known):
     }
     if errors:
         ev['harness_errors'] = errors[:5]
-    os.makedirs(os.path.join(VERIF, 'evidence'), exist_ok=True)
-    with open(os.path.join(VERIF, 'evidence', pid + '.json'), 'w') as f:
+    evdir = os.environ.get('VERIF_EVIDENCE_DIR') or os.path.join(VERIF, 'evidence')
+    os.makedirs(evdir, exist_ok=True)
+    with open(os.path.join(evdir, pid + '.json'), 'w') as f:
         json.dump(ev, f, indent=1, sort_keys=True, default=repr)
 
     print('%s tier=%s seed=%d: %d cases, %d distinct non-trivial, %d requests, %.1fs, shards=%d'
